@@ -2,8 +2,9 @@
 """Run the checks against the seeded mutations kept under /verif/seeded/<id>/.
 
 usage: python3 tools/run_seeded.py [--tier quick|thorough] [id …]
-For every seeded change: `git -C /repo apply patch.diff`, run ./check <property> (and the extra properties listed in
-meta.json["also"]), record exit status / VIOLATION lines, then `git -C /repo checkout -- .`.  /repo must be clean.
+For every seeded change: apply patch.diff to a scratch worktree of /repo's HEAD (default; `--in-repo` applies it to /repo
+itself and reverts it afterwards), run ./check <property> with CNFGEN_REPO pointing there (and the extra properties listed in
+meta.json["also"]), record exit status / VIOLATION lines, revert.  /repo must be clean.  The scratch worktree is removed at the end.
 Results go to seeded/RESULTS.json (and a table on stdout).  Never run concurrently with other checks.
 """
 import json
@@ -28,6 +29,33 @@ def main():
         i = args.index("--tier")
         tier = args[i + 1]
         del args[i:i + 2]
+    in_repo = "--in-repo" in args
+    if in_repo:
+        args.remove("--in-repo")
+    target = "/repo"
+    if not in_repo:
+        import tempfile
+        target = os.path.join(tempfile.mkdtemp(prefix="seedrun-"), "repo")
+        rc, out = sh(["git", "-C", "/repo", "worktree", "add", "--detach", target, "HEAD"])
+        if rc:
+            print(out); return 2
+    import shutil, tempfile as _tf
+    keep = _tf.mkdtemp(prefix="evidence-keep-")          # evidence written while a patch is applied is not evidence
+    shutil.copytree(os.path.join(HERE, "evidence"), os.path.join(keep, "evidence"))
+    try:
+        return run(args, tier, target)
+    finally:
+        shutil.rmtree(os.path.join(HERE, "evidence"), ignore_errors=True)
+        shutil.copytree(os.path.join(keep, "evidence"), os.path.join(HERE, "evidence"))
+        shutil.rmtree(keep, ignore_errors=True)
+        if not in_repo:
+            sh(["git", "-C", "/repo", "worktree", "remove", "--force", target])
+            import shutil; shutil.rmtree(os.path.dirname(target), ignore_errors=True)
+            # leave the generated tables describing /repo again
+            sh(["python3", os.path.join(HERE, "tools", "extract_tables.py")], cwd=HERE)
+
+
+def run(args, tier, target):
     ids = args or sorted(d for d in os.listdir(SEEDED) if os.path.isdir(os.path.join(SEEDED, d)))
     rc, out = sh(["git", "-C", "/repo", "status", "--porcelain"])
     if out.strip():
@@ -41,7 +69,7 @@ def main():
         d = os.path.join(SEEDED, sid)
         meta = json.load(open(os.path.join(d, "meta.json")))
         props = [meta["property"]] + list(meta.get("also", []))
-        rc, out = sh(["git", "-C", "/repo", "apply", os.path.join(d, "patch.diff")])
+        rc, out = sh(["git", "-C", target, "apply", os.path.join(d, "patch.diff")])
         if rc != 0:
             print(sid, "PATCH DOES NOT APPLY", out[:200])
             results[sid] = {"applied": False}
@@ -51,7 +79,7 @@ def main():
             for p in props:
                 t0 = time.time()
                 rc, out = sh([os.path.join(HERE, "check"), p, "--tier", tier], cwd=HERE,
-                             env=dict(os.environ, VERIF_SEED=os.environ.get("VERIF_SEED", "1")))
+                             env=dict(os.environ, CNFGEN_REPO=target, VERIF_SEED=os.environ.get("VERIF_SEED", "1")))
                 viol = [l for l in out.split("\n") if l.startswith("VIOLATION")]
                 entry["checks"][p] = {"exit": rc, "violations": len(viol),
                                       "with_failing_input": sum(1 for l in viol if "no-failing-input-found" not in l),
@@ -64,9 +92,9 @@ def main():
                 sid, entry["caught"], entry["caught_with_input"],
                 " | ".join("{}:{}".format(p, c["summary"][:70]) for p, c in entry["checks"].items())))
         finally:
-            sh(["git", "-C", "/repo", "checkout", "--", "."])
+            sh(["git", "-C", target, "checkout", "--", "."])
             # new files created by a patch
-            sh(["git", "-C", "/repo", "clean", "-fdq"])
+            sh(["git", "-C", target, "clean", "-fdq"])
         json.dump(results, open(respath, "w"), indent=1, sort_keys=True)
     return 0
 
